@@ -6,8 +6,7 @@ cd /verif
 if [ "$KIND" = seeded ]; then
   for d in seeded/*/; do
     id=$(basename "$d"); pid=${id%-*}
-    out=$(tools/mutant.sh "$d/patch.diff" "$pid" 2>&1 | tail -1)
-    echo "$id: $out"
+    python3 tools/seed_eval.py "$pid" "seeded/$id" "$id" --recheck 2>&1 | tail -1
   done
 else
   for f in selftest/*/*.diff; do
